@@ -9,7 +9,7 @@ ID = 'C12'
 LEVEL = 'model_checking'
 CHUNK = 200
 
-STATES = ['Sta2', 'Sta3', 'Sta5', 'Sta6', 'Sta7', 'Sta13']
+STATES = ['Sta2', 'Sta3', 'Sta5', 'Sta6', 'Sta7', 'Sta13', 'Sta8', 'Sta9', 'Sta10', 'Sta11', 'Sta12']
 
 
 def prefix(state):
@@ -22,6 +22,12 @@ def prefix(state):
         'Sta6': ('ac', [rq, U('accept')]),
         'Sta7': ('rq', [U('assoc_rq'), ac, U('release_rq')]),
         'Sta13': ('ac', [rq, U('accept'), ('pdu', e2.std_release()), U('release_rp')]),
+        # release requested by the peer, local response outstanding; and the four release-collision states
+        'Sta8': ('ac', [rq, U('accept'), ('pdu', e2.std_release())]),
+        'Sta9': ('rq', [U('assoc_rq'), ac, U('release_rq'), ('pdu', e2.std_release())]),
+        'Sta10': ('ac', [rq, U('accept'), U('release_rq'), ('pdu', e2.std_release())]),
+        'Sta11': ('rq', [U('assoc_rq'), ac, U('release_rq'), ('pdu', e2.std_release()), ('pdu', e2.std_release(True))]),
+        'Sta12': ('ac', [rq, U('accept'), U('release_rq'), ('pdu', e2.std_release()), ('pdu', e2.std_release(True))]),
     }[state]
 
 
@@ -34,7 +40,8 @@ def seeds(state):
          'abort': e2.std_abort(2, 1), 'echo': echo, 'store': store, 'data': data, 'two-pdv': two}
     pick = {'Sta2': ['rq', 'ac', 'echo', 'rel', 'abort'], 'Sta3': ['rq', 'echo', 'abort'], 'Sta5': ['ac', 'rj', 'abort', 'echo'],
             'Sta6': ['echo', 'store', 'two-pdv', 'rel', 'abort', 'rq', 'data'], 'Sta7': ['echo', 'relp', 'rel', 'abort', 'store'],
-            'Sta13': ['rq', 'abort', 'echo', 'relp']}[state]
+            'Sta13': ['rq', 'abort', 'echo', 'relp'], 'Sta8': ['echo', 'rel', 'abort'], 'Sta9': ['relp', 'echo', 'abort'],
+            'Sta10': ['relp', 'echo', 'rq'], 'Sta11': ['relp', 'echo', 'abort'], 'Sta12': ['rel', 'echo', 'abort']}[state]
     return [(k, S[k]) for k in pick]
 
 
@@ -179,18 +186,24 @@ def cases(tier, seed):
                 yield {'state': state, 'seed': 'dimse-after-fragment', 'mut': mlabel, 'bytes': e2.pdata(1, 1, e2.echo_cmd()[:10]) + mraw, 'ending': 'close'}
         for mlabel, mraw in tiny(thorough):
             yield {'state': state, 'seed': 'tiny', 'mut': mlabel, 'bytes': mraw, 'ending': 'close'}
+            if mlabel.endswith('-empty') or thorough:
+                yield {'state': state, 'seed': 'tiny', 'mut': mlabel, 'bytes': mraw, 'ending': 'reset'}
+        for sname, raw in seeds(state):
+            for k in (1, 5, 6, 7, len(raw) - 1, len(raw)):
+                yield {'state': state, 'seed': sname, 'mut': 'trunc-%d' % k, 'bytes': raw[:k], 'ending': 'reset'}
+            yield {'state': state, 'seed': sname, 'mut': 'type@0=57', 'bytes': b'\x57' + raw[1:], 'ending': 'reset'}
 
 
 def domain(tier):
     return {'states': STATES, 'seeds': {s: [k for k, _ in seeds(s)] for s in STATES}}
 
 
-RULE = ('for each of 6 protocol states (reached by a fixed valid prefix) x each seed PDU valid or plausible there: every truncation '
+RULE = ('for each of 11 protocol states (Sta2, 3, 5..13: every state with a connection, reached by a fixed valid prefix) x each seed PDU valid or plausible there: every truncation '
         'offset (length left / fixed up), every length field (PDU, item, sub-item, UID length, PDV) set to 0, 1, len-1, len+1, half '
         'and full range, every type byte set to 00/08/11/57/FF, every single-bit flip in the first 80 bytes, text bytes set to '
         '80/FF/00, the DIMSE-level catalogue (control header, truncated/corrupt command set, missing elements, unknown command '
         'field, unaccepted context, PDV length 0/1/oversize) and all tiny PDUs (0-, 1- and 2-byte bodies on a grid under every '
-        'type byte); each followed by peer close, and (thorough: all, quick: the structural ones) by peer silence past ARTIM. '
+        'type byte); each followed by peer close, by a connection reset (recv() fails; on a subset), and (thorough: all, quick: the structural ones) by peer silence past ARTIM. '
         'Oracle: run() never raises / hangs / blocks; every byte written parses as a well-formed PDU; step-by-step agreement '
         'with the TLA+ model where each framed chunk is classified by the library\'s own decoder (undecodable -> invalid-PDU '
         'event); final state idle with the transport closed. distinct/non-trivial = distinct (state, seed, mutation, ending)')
@@ -240,6 +253,8 @@ def run_case(case):
     n_pre = len(pre)
     if case['ending'] == 'close':
         hist.append(('close',))
+    elif case['ending'] == 'reset':
+        hist.append(('reset',))       # the peer goes away without reading what the provider answered: recv() fails
     else:
         hist += [('tick', 5.0), ('tick', 5.5)]
     viol = []
@@ -285,7 +300,7 @@ def run_case(case):
         if ev[0] == 'bytes':
             is_chunk = (i - n_pre - 1) < len(chunks)
             cands = _classify(ev[1]) if is_chunk else [None]
-        elif ev[0] == 'close':
+        elif ev[0] in ('close', 'reset'):
             cands = ['Evt17']
         else:
             cands = ['Evt18'] if (m[2] and ev[1] == 5.5) else [None]
@@ -315,7 +330,7 @@ def run_case(case):
         else:
             m = matched
     if fin['status'] == 'quiescent-end':
-        if case['ending'] == 'close' and (fin['state'] != 0 or fin['sock'] == 'open'):
+        if case['ending'] in ('close', 'reset') and (fin['state'] != 0 or fin['sock'] == 'open'):
             viol.append((sig + ':not-idle-after-close', 'after the peer closed: Sta%d socket %s (%s)' % (fin['state'] + 1, fin['sock'], where)))
         if case['ending'] == 'silence' and fin['state'] in (1, 12):
             viol.append((sig + ':artim-not-honoured', 'still in Sta%d after 10.5 s of peer silence (%s)' % (fin['state'] + 1, where)))
